@@ -156,6 +156,17 @@ func compare(t world.TB, f *gen.Func, got any, want []reflect.Value, u refmodel.
 	}
 }
 
+func countKeyed(f *gen.Func, items []reflect.Value) (keyed, idless int) {
+	for _, it := range items {
+		if _, ok := gen.KeyOf(f, it); ok {
+			keyed++
+		} else {
+			idless++
+		}
+	}
+	return
+}
+
 func TestFold(t *testing.T) {
 	fs := funcs()
 	rapid.Check(t, world.Prop(func(t *rapid.T) {
@@ -174,7 +185,32 @@ func TestFold(t *testing.T) {
 			if i == 0 && rapid.IntRange(0, 2).Draw(t, "seedfull") != 0 {
 				shape = listgen.Full // most histories start from a populated list
 			}
-			u := listgen.Update(t, &f, state, shape, gen.Opt{LooseSelectors: true, UnsortedFull: true}, fmt.Sprintf("u%d", i))
+			u := listgen.Update(t, &f, state, shape, gen.Opt{LooseSelectors: true, UnsortedFull: true, MixedIDs: rapid.IntRange(0, 3).Draw(t, fmt.Sprintf("mayMixIdentifiers%d", i)) == 0}, fmt.Sprintf("u%d", i))
+			if keyed, idless := countKeyed(&f, u.Items); u.Partial && keyed > 0 && idless > 0 {
+				// a sender's slip: a partial update whose items partly lost their identifiers. What the identifier-less
+				// item is to be applied to is not defined by the rules, so the content is not compared - but whatever
+				// the stack makes of it, the list keeps at most one item per identifier and its order; the history goes
+				// on from the list the stack holds
+				world.Label("partial/items-with-and-without-identifiers")
+				tg.apply(u)
+				items := refmodel.ItemsOf(&f, tg.read())
+				if k, ok := refmodel.UniqueIdentifiers(&f, items); !ok {
+					world.Fail(t, fmt.Sprintf("C02/duplicate-identifier/%s", f.Fn), "%s step %d: identifier %s occurs twice after a partial update mixing items with and without identifiers\n update: %s\n data: %v", tg.name, i, k, world.JSON(listgen.Describe(&f, u)), refmodel.Multiset(items))
+				}
+				if _, idlessStored := countKeyed(&f, items); idlessStored == 0 && !refmodel.OrderedByLeadingUintKeys(&f, items) {
+					world.Fail(t, fmt.Sprintf("C02/unordered/%s/%s", sigShape(u.Shape()), f.Fn), "%s step %d: items not ordered by numeric identifier: %v", tg.name, i, refmodel.Multiset(items))
+				}
+				state = refmodel.CloneItems(items)
+				shapeSeq = append(shapeSeq, u.Shape()+"/mixed")
+				sample = append(sample, listgen.Describe(&f, u))
+				if _, idlessStored := countKeyed(&f, items); idlessStored > 0 {
+					// the stack kept the identifier-less item as an item of its own: a list outside the domain of
+					// the rules (no identifier to merge, select or order by) - the history ends here
+					world.Label("partial/identifier-less-item-stored")
+					break
+				}
+				continue
+			}
 			if u.DeleteSelector.IsValid() {
 				if m := listgen.Matches(u.DeleteSelector, state); m > 1 {
 					world.Label("delete-selector/several-matches")
